@@ -1,7 +1,7 @@
 (* C09: the state inventory and (re)initialisation policy REGENERATED from /repo on this run. *)
 From Coq Require Import List NArith Bool Arith String.
 From RG.Ast Require Import Tree Walker WalkerProof WalkSpec WfCheck WalkPanic.
-From RG.Engine Require Import RunState.
+From RG.Engine Require Import RunState Reentrant.
 From RGW Require Import Gen_AstSchema Gen_Walker Gen_WalkTags Gen_WalkState Gen_RunnerState Inst_Walker.
 Import ListNotations.
 Local Open Scope string_scope.
@@ -129,3 +129,22 @@ Lemma walk_panic_gen : forall (P : ev -> bool) fuel n st E, wf gen_spec n -> (he
   walk AF FrameDeferPop gen_table P fuel n st E =
     if hasp P evs then RPanic (w_stack st) (E ++ cut P evs) else ROk st (E ++ evs).
 Proof. intros P. exact (walk_panic AF gen_table gen_spec table_ok_defer P). Qed.
+
+(* the bindings of a type-pattern match live in the RunnerState's typematch state: its inventory, and reset() -- called
+   first thing by every MatchIdentical, whatever the previous match did -- empties every field of it *)
+Definition known_typematch_state : list string := ["typeMatches"; "int64Matches"].
+Fixpoint strs_subset (a b : list string) : bool := match a with [] => true | x :: a' => str_mem x b && strs_subset a' b end.
+Lemma typematch_bindings_reset :
+  gen_typematch_resets_bindings_per_match = true /\ strs_eqb gen_fields_typematch_MatcherState known_typematch_state = true /\
+  strs_subset gen_fields_typematch_MatcherState gen_typematch_reset_clears = true.
+Proof. vm_compute. auto. Qed.
+
+(* the match object of a comment rule (its capture list is append-only) is declared per rule *)
+Definition comment_match_scope : acc_scope := if String.eqb gen_comment_match_scope "iteration" then ScopeIteration else ScopeLoop.
+Lemma comment_match_per_rule : comment_match_scope = ScopeIteration.
+Proof. vm_compute. reflexivity. Qed.
+
+(* a run without RunContext.State gets a state of its own *)
+Definition gen_nil_policy : nil_state_policy := if String.eqb gen_nil_state_policy "fresh" then NilFresh else NilPooledEarlyRelease.
+Lemma nil_state_is_fresh : gen_nil_policy = NilFresh /\ gen_new_runner_state_allocates_all = true.
+Proof. vm_compute. auto. Qed.
